@@ -31,6 +31,8 @@
      nodes[0].parent, which no function ever writes or reads.  Stale values (group_leader of freed
      groups, the allocated part of groups[]) are kept exactly as the C code leaves them.
      Every C loop is a FoldLeft over an index sequence that is an upper bound for its trip count.
+     (TLCEval around function constructors only forces TLC to build the array instead of keeping
+     a lambda that is re-evaluated on every access; it is the identity.)
 
    PART R  the reference.  State [nc, limit, freq, prnt, son] with the LZHUF.C arrays
        freq[0..T]  son[0..T-1]  prnt[0..T+nc-1]     (T = NT, R = T - 1 the root)
@@ -61,7 +63,7 @@ GFreeGroup(st, group) ==
 
 \* init_groups
 GInitGroups(st) ==
-  [st EXCEPT !.groups = [i \in 0..(GNT(st.nc) - 1) |-> U16(i)], !.num_groups = 0]
+  [st EXCEPT !.groups = TLCEval([i \in 0..(GNT(st.nc) - 1) |-> U16(i)]), !.num_groups = 0]
 
 \* init_tree
 GInitTree(st0) ==
@@ -100,12 +102,12 @@ GInitTree(st0) ==
 GInit(NC, LIMIT) ==
   LET NT == GNT(NC)
       zero == [nc |-> NC, limit |-> LIMIT,
-               nodes |-> [i \in 0..(NT - 1) |-> [leaf |-> FALSE, child_index |-> 0, parent |-> 0,
-                                                 freq |-> 0, group |-> 0]],
-               leaf_nodes |-> [c \in 0..(NC - 1) |-> 0],
-               groups |-> [i \in 0..(NT - 1) |-> 0],
+               nodes |-> TLCEval([i \in 0..(NT - 1) |-> [leaf |-> FALSE, child_index |-> 0, parent |-> 0,
+                                                         freq |-> 0, group |-> 0]]),
+               leaf_nodes |-> TLCEval([c \in 0..(NC - 1) |-> 0]),
+               groups |-> TLCEval([i \in 0..(NT - 1) |-> 0]),
                num_groups |-> 0,
-               group_leader |-> [i \in 0..(NT - 1) |-> 0],
+               group_leader |-> TLCEval([i \in 0..(NT - 1) |-> 0]),
                fault |-> FALSE]
   IN GInitTree(GInitGroups(zero))
 
@@ -252,17 +254,22 @@ GWalkAll(st) ==
                           << nd.child_index - 1, Append(w[k][2], 1) >> >>
   IN FoldLeft(step, << << 0, << >> >> >>, Ix(NT))
 
-\* sym -> set of bit strings that read_code decodes to sym
-GCodeSets(st) ==
-  LET w == GWalkAll(st) IN
-  [s \in 0..(st.nc - 1) |->
-     { w[k][2] : k \in { j \in 1..Len(w) : st.nodes[w[j][1]].leaf /\ st.nodes[w[j][1]].child_index = s } }]
+\* sym -> sequence of the bit strings that read_code decodes to sym (one pass over the work list)
+GCodeLists(st) ==
+  LET w == GWalkAll(st)
+      put(a, k) ==
+        LET nd == st.nodes[w[k][1]] IN
+        IF nd.leaf
+        THEN IF nd.child_index \in DOMAIN a THEN [a EXCEPT ![nd.child_index] = Append(a[nd.child_index], w[k][2])] ELSE a
+        ELSE a
+  IN FoldLeft(put, [s \in 0..(st.nc - 1) |-> << >>], Ix(Len(w)))
 
 NoCode == << 2 >>                            \* not a bit string
 \* sym -> THE bit string that decodes to sym (NoCode if there is none or more than one)
 GCodeTable(st) ==
-  LET cs == GCodeSets(st) IN
-  [s \in 0..(st.nc - 1) |-> IF Cardinality(cs[s]) = 1 THEN CHOOSE b \in cs[s] : TRUE ELSE NoCode]
+  LET cl == GCodeLists(st)
+      pick(a, k) == [a EXCEPT ![k - 1] = IF Len(cl[k - 1]) = 1 THEN cl[k - 1][1] ELSE NoCode]
+  IN FoldLeft(pick, [s \in 0..(st.nc - 1) |-> NoCode], Ix(st.nc))
 GCode(st, sym) == GCodeTable(st)[sym]
 
 \* =====================================================================================
@@ -275,9 +282,9 @@ RRoot(nc) == 2 * nc - 2                      \* R
 RInit(NC, LIMIT) ==
   LET T == RT(NC)
       R == RRoot(NC)
-      f0 == [k \in 0..T |-> IF k < NC THEN 1 ELSE 0]
-      s0 == [k \in 0..(T - 1) |-> IF k < NC THEN k + T ELSE 0]
-      p0 == [k \in 0..(T + NC - 1) |-> IF k >= T THEN k - T ELSE 0]
+      f0 == TLCEval([k \in 0..T |-> IF k < NC THEN 1 ELSE 0])
+      s0 == TLCEval([k \in 0..(T - 1) |-> IF k < NC THEN k + T ELSE 0])
+      p0 == TLCEval([k \in 0..(T + NC - 1) |-> IF k >= T THEN k - T ELSE 0])
       \* i = 0; j = N_CHAR; while (j <= R) {...; i += 2; j++}
       step(a, m) ==
         LET i == 2 * (m - 1)
@@ -309,8 +316,8 @@ RReconst(t0) ==
             scan(x, q) == IF x[2] THEN x ELSE IF f < fq[x[1]] THEN << x[1] - 1, FALSE >> ELSE << x[1], TRUE >>
             k == FoldLeft(scan, << j - 1, FALSE >>, Ix(j))[1] + 1
             \* memmove(&a[k + 1], &a[k], (j - k) elements); a[k] = v
-            ins(arr, v) == [x \in DOMAIN arr |-> IF x = k THEN v
-                                                 ELSE IF x > k /\ x <= j THEN arr[x - 1] ELSE arr[x]]
+            ins(arr, v) == TLCEval([x \in DOMAIN arr |-> IF x = k THEN v
+                                                         ELSE IF x > k /\ x <= j THEN arr[x - 1] ELSE arr[x]])
         IN << ins(fq, f), ins(a[2], i) >>
       c2 == FoldLeft(connect, << c1[1], c1[2] >>, Ix(NC - 1))
       \* connect prnt
@@ -388,4 +395,27 @@ RDecode(t, bits) ==
         ELSE << t.son[a[1] + bits[a[2] + 1]], a[2] + 1, 0 >>
       r == FoldLeft(step, << t.son[RRoot(t.nc)], 0, 0 >>, Ix(Len(bits) + 1))
   IN [ok |-> r[3] = 1, sym |-> IF r[3] = 1 THEN r[1] - T ELSE 0, used |-> r[2]]
-=====================================================================================
+================================================================================
+\* =====================================================================================
+\* CORRESPONDENCE
+\* =====================================================================================
+(* lhasa's node i IS the reference's node R - i (same weight, leaf for the same symbol / children
+   R - son, R - son - 1, parent R - prnt; leaf_nodes[c] = R - prnt[T + c]), no fault, and every symbol
+   of sample has the same code in both.  State-level (no variables): used by MC_Codec_Lh1Lock's
+   full-scale evaluation and by Trace_Lh1Groups at every dump of the C struct. *)
+FullLock(rr, gg, sample) ==
+  LET nc == rr.nc
+      t == RT(nc)
+      rt == RRoot(nc)
+      tab == GCodeTable(gg)
+  IN /\ ~gg.fault
+     /\ \A i \in 0..(t - 1) :
+           LET nd == gg.nodes[i]
+               k == rt - i
+           IN /\ nd.freq = rr.freq[k]
+              /\ IF nd.leaf THEN rr.son[k] = t + nd.child_index
+                            ELSE rr.son[k] < t /\ nd.child_index = rt - rr.son[k]
+              /\ (i # 0 => nd.parent = rt - rr.prnt[k])
+     /\ \A c \in 0..(nc - 1) : gg.leaf_nodes[c] = rt - rr.prnt[t + c]
+     /\ \A s \in sample : tab[s] # NoCode /\ tab[s] = RCode(rr, s)
+=====
